@@ -43,8 +43,8 @@ CLAIMED = {
    text="2-4 real OS threads (real thread_local! storage) each run a seeded script of failing table calls (12 kinds), description reads and succeeding calls; a simulator thread alone chooses, from the seed, which thread performs its next call, so every interleaving is exactly repeatable. At every read the string must equal the text of that thread's most recent failure, the expected text being taken from the native error of the same call. Swarm per run: a palette of 2-22 failure kinds (17 distinct texts), optional bursts of 30-320 short-lived failing threads (thread churn). A dependence on failures of threads of earlier runs of the same process is reported as a replayable run sequence. A Miri slice (seeded preemptive scheduler, data-race detection) runs the same kind of workload with preemption inside calls.",
    note="Interleaving is at call granularity; preemption inside a call and data races are the Miri lane's business (see DESIGN.md 5.6). shuttle/loom are unusable here because they multiplex threads on one OS thread and would share std::thread_local!."),
  "C17": dict(cat="exploration", sec="5.7", engine="lane-T",
-   technique="deterministic simulation of call histories and cross-thread schedules against isolated baselines",
-   text="A pool of seeded inputs sharing a small label alphabet (so suffixes overlap, including >32-suffix packets) is evaluated call by call in fresh threads (baseline), then in seeded orders with repeats on one long-lived thread and interleaved over 2-4 parked threads under a seeded schedule; every outcome (Ok bytes | Err text | panic text) must equal its baseline; gen::query / empty-packet results may differ only in bytes 0-1. Pools include renames that fail part-way, twin renames (same names, other matching mode) scheduled back to back, case-variant record texts and name conversion through the C table. A dependence on earlier runs of the same process is reported as a replayable run sequence; a Miri slice adds preemption inside calls and data-race detection.",
+   technique="deterministic simulation of call histories, cross-thread schedules and clock skew against isolated baselines",
+   text="A pool of seeded inputs sharing a small label alphabet (so suffixes overlap, including >32-suffix packets) is evaluated call by call in fresh threads (baseline), then in seeded orders with repeats on one long-lived thread and interleaved over 2-4 parked threads under a seeded schedule; every outcome (Ok bytes | Err text | panic text) must equal its baseline; gen::query / empty-packet results may differ only in bytes 0-1. Pools include renames that fail part-way, twin renames (same names, other matching mode) scheduled back to back, case-variant record texts and name conversion through the C table. A dependence on earlier runs of the same process is reported as a replayable run sequence; a Miri slice adds preemption inside calls and data-race detection; a clock-skew slice (wall clock shifted 400 days through a preloaded seam) re-executes runs and requires identical event logs.",
    note="Purity means equal outcomes, so deterministic wrong answers or deterministic panics of the transformations (C05-C07, C13: unclaimed) never raise an alarm here."),
 }
 def check(pid, c):
